@@ -1,2 +1,6 @@
 import Eav.Model
 import Eav.Props.GenTie
+import Eav.Lemmas.Str
+import Eav.Props.C11
+import Eav.Props.C07
+import Eav.Props.C14
